@@ -59,6 +59,8 @@ CHECKS = {
 
  "C29": dict(cat="exploration", tech="deterministic simulation: seeded cooperative scheduler (backup thread vs writer thread, backup file operations are scheduling points) + restore and model comparison",
    text="nervusdb::backup runs concurrently with a generated writer history (and, separately, quiescently); the restored copy must open and equal one model state between the operations acknowledged before the backup began and those begun before it returned.", ref="§3 C29"),
+ "C31": dict(cat="exploration", tech="deterministic simulation: HNSW level randomness from the simulator's PRNG stream (one seed = one index shape), reopen events, brute-force oracle",
+   text="Vector-heavy L1 histories (ties, duplicates, re-insertion, deletions, a bulk configuration with hundreds of vectors so that the persistent trees split) with close/drop + reopen; results are checked for soundness (count, distinctness, existing nodes with vectors, exact bit-equal distances, order), for exactness when the index holds at most 2m+1 vectors (m=2), and for equality before and after reopen.", ref="§3 C31"),
  "C32": dict(cat="exploration", tech="deterministic simulation: simulated wall clock (stalled / coarse / backwards-stepping regimes) behind the node-id allocation sites, create-heavy C API sessions",
    text="Create-heavy sessions (CREATE, UNWIND..CREATE of up to 20 nodes, MERGE creates, deletes, compaction, reopen) under per-run clock regimes; no create may fail, identities must be pairwise distinct, never reused and stable across compaction and reopen.", ref="§3 C32"),
  "C33": dict(cat="exploration", tech="deterministic simulation: simulated monotonic clock whose deadline crossing is swept over every clock read of the query, plus PRNG-chosen row/collection limits; comparison with the unlimited result",
